@@ -119,9 +119,24 @@ def one_case(ctx, drv):
                         suffix = os.path.splitext(f)[1] if os.path.splitext(f)[1] in trees.SUFFIXES else ''
                         open(p, 'wb').write(trees.compress(suffix, ''.join(l + '\n' for l in lines).encode('utf8')))
         # the shuffled Manifests changed: the parents' MANIFEST entries in B are stale (as after any edit) - fine, update repairs
+        a0, b0 = manifest_state(root), manifest_state(copy)
         outA, effA = updimpl.run_update(root, pl.top, '', o)
         with shuffled_scandir(rng):
             outB, effB = updimpl.run_update(copy, pl.top, '', o)
+        if 'ok' in outA and 'ok' in outB:
+            # a Manifest that BOTH replicas wrote in this very update, over byte-equal sub-Manifests, has canonical bytes at once
+            a1, b1 = manifest_state(root), manifest_state(copy)
+            for mp in sorted(set(a1) & set(b1)):
+                if a1[mp][0] == a0.get(mp, (None,))[0] or b1[mp][0] == b0.get(mp, (None,))[0]:
+                    continue
+                try:
+                    ents = updimpl.read_manifest(os.path.join(root, mp)).entries
+                except Exception:
+                    continue
+                subs = [os.path.normpath(os.path.join(os.path.dirname(mp), e.path)) for e in ents if e.tag == 'MANIFEST']
+                if all(a1.get(sp, (1,))[0] == b1.get(sp, (2,))[0] for sp in subs) and a1[mp][0] != b1[mp][0]:
+                    ctx.fail('manifest-bytes-depend-on-order', dict(scen, manifest=mp, stage='first update'), mp)
+                    break
         ctx.count('first:' + ('ok' if 'ok' in outA else outA['err']))
         ctx.case(json.dumps([scen, sorted(pl.files)]), True, dict(scen, outcome=outA if 'err' in outA else 'ok'))
         if 'ok' not in outA or 'ok' not in outB:
